@@ -87,6 +87,8 @@ def project(res, meta, d=None, lcds=None):
         dk.append({"ln": e["LineNumber"], "pp": pp, "cp": sc.units(e["LatencyCP"]), "lcd": sc.units(e["LatencyLCD"]),
                    "unk": "tp_unknown" in [str(f) for f in e["Flags"]]})
     case["dk"] = dk
+    case["madeup"] = [e["LineNumber"] for e in d["Kernel"]
+                      if str(e.get("Line", "")).strip().split(" ")[0].split("\t")[0].lower() in MADEUP]
     # overflow guard for the products TLC forms: a cell whose comparison does not fit 32 bits is taken
     # out of the case on both sides (counted), the rest of the report is still judged
     skipped = 0
@@ -136,17 +138,19 @@ def project(res, meta, d=None, lcds=None):
 
 
 TRACE_KEYS = ("id", "fl", "given", "hdr", "isa", "blocks", "warnings", "missing", "rows", "dk", "tot", "sum", "nports",
-              "lcdlist", "lcds", "lcdcheck")
+              "lcdlist", "lcds", "lcdcheck", "madeup")
+# mnemonics no instruction set has: lines with them lack performance data by construction, whatever operands they carry
+MADEUP = ("vfoopd", "fooq", "vfoo", "foo")
 
 
 # ------------------------------------------------------------------------------ generated kernels
 POOL = {
     "x86": {"known": ["vaddpd %xmm0, %xmm1, %xmm2", "addq $1, %rax", "vmulpd %xmm3, %xmm4, %xmm5", "cmpq %rbx, %rax"],
-            "unknown": ["vfoopd %xmm1, %xmm2, %xmm3", "fooq %rax, %rbx"],
+            "unknown": ["vfoopd %xmm1, %xmm2, %xmm3", "fooq %rax, %rbx", "vfoopd (%rax), %xmm2, %xmm3", "fooq %rcx, 8(%rbx)"],
             "zero": ["jne .L1"], "label": ".L1:", "cm": "#",
             "heavy": "vaddpd %xmm0, %xmm1, %xmm2", "chain": ["vaddpd %xmm2, %xmm1, %xmm2", "vmulpd %xmm2, %xmm6, %xmm7"]},
     "aarch64": {"known": ["fadd d0, d1, d2", "add x0, x0, #1", "fmul d3, d4, d5", "cmp x1, x2"],
-                "unknown": ["vfoo d1, d2, d3", "foo x1, x2"],
+                "unknown": ["vfoo d1, d2, d3", "foo x1, x2", "vfoo d1, [x2]", "foo x1, [x2, #8]"],
                 "zero": ["b.ne .L1"], "label": ".L1:", "cm": "//",
                 "heavy": "fadd d0, d1, d2", "chain": ["fadd d2, d1, d2", "fmul d7, d2, d6"]},
 }
@@ -160,13 +164,13 @@ def gen_kernel(isa, n, shape, marked=False, rnd=None, blanks=False):
     lines = []
     for i in range(n):
         if shape == "all":
-            lines.append(pool["unknown"][i % 2])
+            lines.append(pool["unknown"][i % 4])
         elif shape == "some" and i % 7 == 3:
-            lines.append(pool["unknown"][(i // 7) % 2])
+            lines.append(pool["unknown"][(i // 7) % 4])
         else:
             lines.append(pool["known"][i % len(pool["known"])])
     if shape == "some" and n <= 3:
-        lines[-1] = pool["unknown"][0]
+        lines[-1] = pool["unknown"][2]
     if marked:
         lines = ["%s pre" % pool["cm"], MARK[isa][0]] + lines + [MARK[isa][1], pool["known"][0]]
     if blanks:
@@ -182,7 +186,8 @@ def gen_kernel(isa, n, shape, marked=False, rnd=None, blanks=False):
 def special_kernels(isa):
     p = POOL[isa]
     ks = {}
-    ks["unknown-mix"] = "\n".join([p["known"][0], p["unknown"][0], p["known"][1], p["unknown"][1], p["chain"][0]]) + "\n"
+    ks["unknown-mix"] = "\n".join([p["known"][0], p["unknown"][0], p["known"][1], p["unknown"][1], p["chain"][0],
+                                   p["unknown"][2], p["unknown"][3]]) + "\n"
     ks["zero-pressure"] = "\n".join([p["label"], p["known"][0], p["chain"][0], p["chain"][1], p["known"][3], p["zero"][0]]) + "\n"
     ks["sum10"] = "\n".join([p["heavy"]] * 44) + "\n"
     ks["sum100"] = "\n".join([p["heavy"]] * 230 + [p["chain"][0]]) + "\n"
